@@ -15,7 +15,7 @@ from common import run_main, hexs, unhexs
 import cmdgen
 
 LEVEL = 'proof'
-MODULES = ['C15']
+MODULES = ['C15', 'C15b']
 
 
 def model_struct(m):
